@@ -36,6 +36,8 @@ def run(ck):
     ck.rule("C18.R11", "with `log`, the record text names every field: the value-set formatter writes each visited field, whatever its name", floor=2)
     ck.rule("C18.R10", "with `log`, enter/exit records come from Span::do_enter/do_exit: Instrumented polls through them for every span, enabled or not (as C17.R3)", floor=1)
     ck.rule("C18.R9", "EnteredSpan::exit exits once: the guard it consumes is left holding Span::none(), so its Drop has nothing to exit or log", floor=2)
+    ck.rule("C18.R16", "a bridged log record reaches the collector get_default names (scoped, else global -- also from a thread that is exiting): the bridge and the "
+            "macros never look the dispatcher up with get_current (as C02.R12)", floor=5)
     ck.rule("C18.R15", "with `log`, a span no collector takes still gets its creation record: in every span! expansion, each path that builds the disabled span "
             "while no collector was ever installed and the level is within log's static and dynamic maximum hands the fields to Span::record_all -- no further test withholds it", floor=100)
     ck.rule("C18.R14", "LogTracer judges a record against LevelFilter::current(): that maximum covers every live collector (the rebuild keeps every live dispatcher and asks it again, every Dispatch is registered; as C01.R5/R6)", floor=6)
@@ -60,6 +62,8 @@ def run(ck):
     r11(ck)
     r12(ck)
     r15(ck)
+    from rules import C02 as _C02
+    _C02.lookup_entry_points(ck, rid="C18.R16", crates={"tracing_log", "tracing"})
 
 
 def r9(ck):
